@@ -161,6 +161,18 @@ func c10L1Dec(a []string) string {
 	return "ok " + hx([]byte(n.Name)) + " " + hx([]byte(n.ScopeID))
 }
 
+// a packet with one entry in each section: what a reused receiver may still hold
+var c10EarlierPkt = func() []byte {
+	name := append([]byte{0x20}, []byte(c10HalfASCII("EARLIER"))...)
+	name = append(name, 0)
+	b := []byte{0xAB, 0xCD, 0x85, 0x00, 0, 1, 0, 1, 0, 1, 0, 1}
+	b = append(append(b, name...), 0, 0x20, 0, 1)
+	for i := 0; i < 3; i++ {
+		b = append(append(b, name...), 0, 0x20, 0, 1, 0, 0, 0, 60, 0, 6, 0x80, 0, 10, 1, 2, 3)
+	}
+	return b
+}()
+
 func c10Roundtrip(a []string) string {
 	lp := c10ParsePkt(a).toLib()
 	w, err := lp.Marshal()
@@ -168,6 +180,9 @@ func c10Roundtrip(a []string) string {
 		return "err"
 	}
 	var back nbtns.NBTNSPacket
+	if c13Used(a) {
+		back.Unmarshal(append([]byte{}, c10EarlierPkt...))
+	}
 	n, err := back.Unmarshal(w)
 	if err != nil {
 		return "ok " + hx(w) + " decode-err"
@@ -177,6 +192,9 @@ func c10Roundtrip(a []string) string {
 
 func c10Unmarshal(a []string) string {
 	var p nbtns.NBTNSPacket
+	if c13Used(a) {
+		p.Unmarshal(append([]byte{}, c10EarlierPkt...))
+	}
 	n, err := p.Unmarshal(unhx(a[0]))
 	if err != nil {
 		return "err"
